@@ -255,7 +255,11 @@ def _magic():
 
 
 def extra_checks(tier, seed):
-    return []
+    if tier != "thorough":
+        return []
+    from pyvc import replaylib as Rp
+    return [Rp.native_crosscheck("C07/bounded/handshake-boundary-cases", _HARNESS,
+                                 "valid / single-defect / undecodable requests and responses, each under four read boundaries, both roles")]
 
 
 # ------------------------------------------------------------------------------------------ replay on the real code
